@@ -28,60 +28,75 @@ Definition pst_in (evs : list ev) (p : Z) : pstate :=
   fold_left (fun st e => if ev_pid e =? p then ev_effect e else st) evs PR.
 Definition pst (h : list op) (p : Z) : pstate := pst_in (consumed h) p.
 
-(** ---- validity: the quantifier of the property *)
+(** ---- validity: the quantifier of the property, as a check of each
+    operation against a bookkeeping state (so that every prefix of a valid
+    history is valid) *)
 Fixpoint nodupb (l : list Z) : bool :=
   match l with [] => true | x :: r => negb (memZ x r) && nodupb r end.
 
+Fixpoint list_eqb (a b : list Z) : bool :=
+  match a, b with
+  | [], [] => true
+  | x :: a', y :: b' => (x =? y) && list_eqb a' b'
+  | _, _ => false
+  end.
+
+Record vst := mkv {
+  v_seen : list Z;                    (* pids launched so far *)
+  v_deliv : list ev;                  (* statuses the kernel has reported so far *)
+  v_expect : option (Z * list Z) }.   (* a foreground launch whose wait must come next *)
+
+Definition v0 := mkv [] [] None.
+
 (** per process (stop cont)* then exit|kill, only for launched processes *)
-Fixpoint events_ok (known : list Z) (st : list (Z * pstate)) (evs : list ev) : bool :=
+Definition ev_ok (seen : list Z) (deliv : list ev) (e : ev) : bool :=
+  memZ (ev_pid e) seen &&
+  match e, pst_in deliv (ev_pid e) with
+  | Continued _, PS => true
+  | Continued _, _ => false
+  | _, PR => true
+  | _, _ => false
+  end.
+
+Fixpoint evs_ok (seen : list Z) (deliv : list ev) (evs : list ev) : bool :=
   match evs with
   | [] => true
-  | e :: r =>
-      let p := ev_pid e in
-      let cur := match find (fun x => fst x =? p) st with Some (_, s) => s | None => PR end in
-      memZ p known &&
-      match e, cur with
-      | Continued _, PS => true
-      | Continued _, _ => false
-      | _, PR => true
-      | _, _ => false
-      end && events_ok known ((p, ev_effect e) :: st) r
+  | e :: r => ev_ok seen deliv e && evs_ok seen (deliv ++ [e]) r
   end.
 
-(** launches: non-empty, gid = first pid, fresh positive pids; a foreground
-    launch is directly followed by the wait on it, and a wait occurs only there;
-    the statuses given to a wait let it return (no foreground member left running) *)
-Fixpoint shape_ok (seen : list Z) (delivered : list ev) (h : list op) : bool :=
-  match h with
-  | [] => true
-  | Launch gid pids bg :: r =>
+(** launches: non-empty, gid = first pid, fresh positive distinct pids; a
+    foreground launch is directly followed by the wait on it (same gid and pid
+    vector) and a wait occurs only there; the statuses reported up to the end of
+    a wait let it return (no member left running) *)
+Definition vcheck (v : vst) (o : op) : bool :=
+  match o with
+  | Launch gid pids bg =>
+      match v_expect v with None => true | Some _ => false end &&
       match pids with [] => false | p0 :: _ => gid =? p0 end &&
-      forallb (fun p => (0 <? p) && negb (memZ p seen)) pids && nodupb pids &&
-      (if bg then match r with Wait _ _ _ :: _ => false | _ => true end
-       else match r with
-            | Wait g ps evs :: _ =>
-                (g =? gid) && (length ps =? length pids)%nat && forallb (fun p => memZ p pids) ps &&
-                forallb (fun p => memZ p ps) pids &&
-                forallb (fun p => negb (pstate_eqb (pst_in (delivered ++ evs) p) PR)) pids
-            | _ => false
-            end) &&
-      shape_ok (pids ++ seen) delivered r
-  | Wait _ _ evs :: r => shape_ok seen (delivered ++ evs) r
-  | Poll evs :: r => shape_ok seen (delivered ++ evs) r
+      forallb (fun p => (0 <? p) && negb (memZ p (v_seen v))) pids && nodupb pids
+  | Wait gid pids evs =>
+      match v_expect v with
+      | Some (g, ps) => (gid =? g) && list_eqb pids ps
+      | None => false
+      end &&
+      evs_ok (v_seen v) (v_deliv v) evs &&
+      forallb (fun p => negb (pstate_eqb (pst_in (v_deliv v ++ evs) p) PR)) pids
+  | Poll evs =>
+      match v_expect v with None => true | Some _ => false end &&
+      evs_ok (v_seen v) (v_deliv v) evs
   end.
 
-Definition first_is_wait (h : list op) : bool := match h with Wait _ _ _ :: _ => true | _ => false end.
-
-(** events are only for processes launched before them *)
-Fixpoint order_ok (seen : list Z) (h : list op) : bool :=
-  match h with
-  | [] => true
-  | Launch _ pids _ :: r => order_ok (pids ++ seen) r
-  | o :: r => forallb (fun e => memZ (ev_pid e) seen) (op_events o) && order_ok seen r
+Definition vnext (v : vst) (o : op) : vst :=
+  match o with
+  | Launch gid pids bg => mkv (pids ++ v_seen v) (v_deliv v) (if bg then None else Some (gid, pids))
+  | Wait gid pids evs => mkv (v_seen v) (v_deliv v ++ evs) None
+  | Poll evs => mkv (v_seen v) (v_deliv v ++ evs) None
   end.
 
-Definition valid (h : list op) : bool :=
-  negb (first_is_wait h) && shape_ok [] [] h && order_ok [] h && events_ok (launched h) [] (all_events h).
+Fixpoint valid_from (v : vst) (h : list op) : bool :=
+  match h with [] => true | o :: r => vcheck v o && valid_from (vnext v o) r end.
+Definition valid (h : list op) : bool := valid_from v0 h.
+Definition vrun (h : list op) : vst := fold_left vnext h v0.
 
 (** ---- goodness of the state after the last operation *)
 Definition in_table (p : Z) (t : table) : bool := existsb (fun j => memZ p (jpids j)) t.
@@ -117,47 +132,10 @@ Definition good (h : list op) : bool :=
   | Poll _ => match r_pend (run h) with [] => good_table h | _ => true end
   end.
 
-(** ---- the known failing classes *)
-Fixpoint ascb (l : list Z) : bool :=
-  match l with
-  | [] => true
-  | x :: r => match r with [] => true | y :: _ => (x <? y) && ascb r end
-  end.
-
-(** (a) a job whose pid vector is not ascending *)
-Definition known_unsorted (h : list op) : bool :=
-  existsb (fun o => match o with Launch _ pids _ => negb (ascb pids) | _ => false end) h.
-
-(** (b,e,f) a stop or continue of a member of a multi-process job *)
-Definition multi_pids (h : list op) : list Z :=
-  concat (map (fun o => match o with
-                        | Launch _ pids _ => match pids with _ :: _ :: _ => pids | _ => [] end
-                        | _ => [] end) h).
 Definition is_stop_or_cont (e : ev) : bool :=
   match e with StoppedE _ _ | Continued _ => true | _ => false end.
-Definition known_member_stop (h : list op) : bool :=
-  existsb (fun e => is_stop_or_cont e && memZ (ev_pid e) (multi_pids h)) (all_events h).
 
-(** (c) a stop and a continue of one process, neither for the waited job, with no poll in between *)
-Fixpoint sc_parked (ps pc : list Z) (h : list op) : bool :=
-  match h with
-  | [] => false
-  | o :: r =>
-      let fg := match o with Wait _ pids _ => pids | _ => [] end in
-      let evs := filter (fun e => negb (memZ (ev_pid e) fg)) (op_events o) in
-      let ps' := map ev_pid (filter (fun e => match e with StoppedE _ _ => true | _ => false end) evs) ++ ps in
-      let pc' := map ev_pid (filter is_cont evs) ++ pc in
-      existsb (fun p => memZ p pc') ps' ||
-      match o with Poll _ => sc_parked [] [] r | _ => sc_parked ps' pc' r end
-  end.
-Definition known_stop_cont_parked (h : list op) : bool := sc_parked [] [] h.
-
-Definition known (h : list op) : bool :=
-  known_unsorted h || known_member_stop h || known_stop_cont_parked h.
-
-(** ---- witnesses *)
-Definition w_unsorted : list op :=
-  [Launch 9 [9; 3] false; Wait 9 [9; 3] [Exited 9 0; Exited 3 0]; Poll []].
+(** ---- regression histories: the witnesses of the defects repaired in /repo (now good) and two broader ones *)
 Definition w_count_waited : list op :=
   [Launch 3 [3; 9] false; Wait 3 [3; 9] [StoppedE 3 19; Continued 3; Exited 3 0; Exited 9 5]].
 Definition w_stop_cont_parked : list op :=
@@ -169,6 +147,11 @@ Definition w_partial_continue : list op :=
 (** a good one, for non-vacuity: non-monotone pids, foreground and background, a
     background exit reaped by the foreground wait, a stop/continue of a single-process job *)
 Definition w_good : list op :=
-  [Launch 40 [40; 50] true; Launch 7 [7] true; Launch 10 [10; 20; 30] false;
+  [Launch 50 [50; 40] true; Launch 7 [7] true; Launch 10 [10; 20; 30] false;
    Wait 10 [10; 20; 30] [Exited 20 0; Exited 50 1; StoppedE 7 19; Signaled 10 9; Exited 30 3];
    Poll []; Poll [Continued 7]; Poll [Exited 40 0; Exited 7 2]].
+(** exit / kill only: pid vectors in any order, background exits reaped by a foreground wait *)
+Definition w_exit_only : list op :=
+  [Launch 9 [9; 3; 6] true; Launch 50 [50; 2] false;
+   Wait 50 [50; 2] [Exited 3 0; Signaled 50 9; Exited 9 1; Exited 2 7];
+   Launch 8 [8] true; Poll [Signaled 8 15]; Poll [Exited 6 0]].
